@@ -102,7 +102,7 @@ Section Json.
         else
           let len := nlen es in
           let i := N.modulo ammo len in
-          let pass' := if negb (N.eqb ammo 0) && N.eqb i (len - 1) then N.succ pass else pass in
+          let pass' := if N.eqb i (len - 1) then N.succ pass else pass in
           (SDeliver (nth (N.to_nat i) es e0), N.succ ammo, pass')
     end.
 
